@@ -65,6 +65,9 @@ func (rn *runner) runScatter(in *scatterInput, cl *mockcluster.Cluster) *violati
 	produced := false
 	last := len(in.Calls) - 1
 	n := enum.All(scatterRunCap, func() {
+		if viol != nil {
+			return // no draws: the enumeration ends
+		}
 		rn.cnt.Runs++
 		outer := vrand.Chooser
 		defer func() { vrand.Chooser = outer }()
@@ -320,8 +323,8 @@ func mkEnvs(ns []int, replicas []int, rules []int, layouts []int, maxSpecial int
 				for _, l := range layouts {
 					for _, kv := range kindVariants(n, maxSpecial, kinds) {
 						e := envSpec{N: n, Kinds: kv, Layout: l, Replicas: k, Rules: ru}
-						if e.peers() > n {
-							continue
+						if e.peers() > n || (ru == 0 && hasKind(kv, kTiFlash)) {
+							continue // TiFlash needs placement rules
 						}
 						out = append(out, e)
 					}
@@ -330,4 +333,13 @@ func mkEnvs(ns []int, replicas []int, rules []int, layouts []int, maxSpecial int
 		}
 	}
 	return out
+}
+
+func hasKind(kinds []int, k int) bool {
+	for _, x := range kinds {
+		if x == k {
+			return true
+		}
+	}
+	return false
 }
